@@ -49,6 +49,7 @@ type TierCfg struct {
 	MaxSteps     int64          `json:"max_steps,omitempty"`
 	MaxDecisions int            `json:"max_decisions,omitempty"`
 	TimeoutS     int            `json:"timeout_s,omitempty"`
+	SolverMs     int            `json:"solver_timeout_ms,omitempty"`
 	Skip         bool           `json:"skip,omitempty"`
 }
 
@@ -57,6 +58,7 @@ type Harness struct {
 	Property string            `json:"property"`
 	Pkg      string            `json:"pkg"`  // directory relative to the repo root ("" = own package zz_harness/<name>)
 	File     string            `json:"file"` // under /verif/harness
+	Deps     []string          `json:"deps,omitempty"` // further harness files (shared helpers) for the same package
 	Func     string            `json:"func"`
 	Solver   string            `json:"solver,omitempty"` // "z3-new" (default) or "cvc5-int"
 	Quick    TierCfg           `json:"quick"`
@@ -183,6 +185,10 @@ func genOverlay(tmp string, hs []Harness) map[string]string {
 	ov[filepath.Join(repoDir, "zz_verif", "verif.go")] = filepath.Join(verifDir, "harness", "verif", "verif.go")
 	for _, h := range hs {
 		ov[harnessTarget(h)] = filepath.Join(verifDir, "harness", h.File)
+		for _, d := range h.Deps {
+			base := strings.TrimSuffix(filepath.Base(d), ".go")
+			ov[filepath.Join(repoDir, harnessPkgDir(h), "zz_verif_"+base+".go")] = filepath.Join(verifDir, "harness", d)
+		}
 	}
 	return ov
 }
@@ -255,7 +261,7 @@ func loadProgram(tmp string, hs []Harness) *loaded {
 			return !strings.HasSuffix(p, "pb") && !strings.HasSuffix(p, "connect")
 		}
 		switch p {
-		case "io", "github.com/google/btree", "encoding/binary", "bytes", "encoding/base64", "context", "errors",
+		case "io", "github.com/google/btree", "encoding/binary", "bytes", "encoding/base64", "context",
 			"golang.org/x/sync/errgroup", "io/fs", "math", "math/bits", "strings", "sort", "slices", "maps", "cmp", "iter",
 			"unicode/utf8", "time", "container/heap", "container/list", "path", "strconv":
 			return true
@@ -290,7 +296,10 @@ func solverFor(h Harness) (string, []string) {
 
 func newEngine(l *loaded, h Harness, tc TierCfg) *interp.Engine {
 	bin, extra := solverFor(h)
-	to := 30000
+	to := 10000
+	if tc.SolverMs > 0 {
+		to = tc.SolverMs
+	}
 	e := interp.NewEngine(l.prog, "", 0)
 	s := &interp.Solver{Bin: bin, Args: extra, TimeoutMs: to}
 	s.Start()
@@ -989,6 +998,27 @@ func writeEvidence(prop, tier string, seed int, reps []*harnessReport, violation
 	os.WriteFile(filepath.Join(verifDir, "evidence", prop+".json"), b, 0o644)
 }
 
+// cmdGoTest runs `go test` in /repo with the generated-protobuf overlay (packages that
+// import *.pb.go do not build without it): gosym gotest ./workers/operator/...
+func cmdGoTest(args []string) {
+	tmp, _ := os.MkdirTemp("", "gosym-gotest")
+	defer os.RemoveAll(tmp)
+	ov := genOverlay(tmp, nil)
+	delete(ov, filepath.Join(repoDir, "zz_verif", "verif.go"))
+	ovj, _ := json.Marshal(map[string]any{"Replace": ov})
+	ovPath := filepath.Join(tmp, "overlay.json")
+	os.WriteFile(ovPath, ovj, 0o644)
+	a := append([]string{"test", "-vet=off", "-count=1", "-overlay", ovPath}, args...)
+	cmd := exec.Command("go", a...)
+	cmd.Dir = repoDir
+	cmd.Env = goEnv()
+	cmd.Stdout, cmd.Stderr = os.Stdout, os.Stderr
+	if err := cmd.Run(); err != nil {
+		os.RemoveAll(tmp)
+		os.Exit(1)
+	}
+}
+
 func main() {
 	if len(os.Args) < 2 {
 		fatal("usage: gosym check|run|worker|replay ...")
@@ -1002,6 +1032,8 @@ func main() {
 		cmdWorker(os.Args[2:])
 	case "replay":
 		cmdReplay(os.Args[2:])
+	case "gotest":
+		cmdGoTest(os.Args[2:])
 	default:
 		fatal("unknown command %s", os.Args[1])
 	}
